@@ -180,6 +180,63 @@ def conjuncts(t):
     return out
 
 
+class BoolFn(object):
+    """A rendered condition (possibly several fused `if` clauses) as a boolean function of its relations: and / or / not /
+    all([..]) / any([..]) over atoms; == / != / is / is not atoms are one relation with a polarity (as in keyaction.atom_key)."""
+    def __init__(self, text):
+        self.atoms = []
+        parts = _split_top(text, ' if ')
+        self.trees = []
+        for p_ in parts:
+            node = _parse(p_)
+            if node is None:
+                raise AnalysisError('condition %s is not an expression' % p_)
+            self.trees.append(self._build(node))
+
+    def _atom(self, key, pos):
+        if key not in self.atoms:
+            self.atoms.append(key)
+        return ('atom', key, pos)
+
+    def _build(self, n):
+        if isinstance(n, ast.BoolOp):
+            return ('and' if isinstance(n.op, ast.And) else 'or', [self._build(v) for v in n.values])
+        if isinstance(n, ast.UnaryOp) and isinstance(n.op, ast.Not):
+            return ('not', self._build(n.operand))
+        if isinstance(n, ast.Call) and dotted(n.func) in ('all', 'any') and len(n.args) == 1 and isinstance(n.args[0], (ast.List, ast.Tuple)):
+            return ('and' if dotted(n.func) == 'all' else 'or', [self._build(v) for v in n.args[0].elts])
+        if isinstance(n, ast.Call) and dotted(n.func) == 'bool' and len(n.args) == 1:
+            return self._build(n.args[0])
+        if isinstance(n, ast.Constant):
+            return ('const', bool(n.value))
+        if isinstance(n, ast.Compare) and len(n.ops) == 1 and isinstance(n.ops[0], (ast.Eq, ast.NotEq, ast.Is, ast.IsNot)):
+            sides = frozenset(self._un(x) for x in (n.left, n.comparators[0]))
+            return self._atom(('eq', sides), isinstance(n.ops[0], (ast.Eq, ast.Is)))
+        return self._atom(('expr', self._un(n)), True)
+
+    @staticmethod
+    def _un(n):
+        return re.sub(r'B_(\d+)_(\d*)', lambda m: '$%s%s' % (m.group(1), '.' + m.group(2) if m.group(2) else ''), ast.unparse(n))
+
+    def value(self, assign):
+        def ev(t):
+            if t[0] == 'const':
+                return t[1]
+            if t[0] == 'atom':
+                v = assign[t[1]]
+                return v if t[2] else not v
+            if t[0] == 'not':
+                return not ev(t[1])
+            vs = [ev(x) for x in t[1]]
+            return all(vs) if t[0] == 'and' else any(vs)
+        return all(ev(t) for t in self.trees)
+
+    def assignments(self):
+        import itertools
+        for vals in itertools.product((True, False), repeat=len(self.atoms)):
+            yield dict(zip(self.atoms, vals))
+
+
 def path_relations(s):
     """relation key -> truth value, for the decisions of a path whose outcome fixes the relation: a bare test, a negated one,
     a conjunction taken as true (every conjunct holds), a disjunction taken as false (no disjunct holds)."""
@@ -374,9 +431,16 @@ def check_self_signatures(rep, prog):
                   'the candidates are taken from the time-sorted signature collection in order', where=sf.where, scenario=scen)
         want = [('eq', frozenset(('%s.type' % v, kind))), ('eq', frozenset(('%s.signer' % v, owner))), ('expr', '%s.is_expired' % v)]
         if cond is not None:
-            cj = conjuncts(cond)
-            ok = all((w if w[0] == 'eq' else ('not', w[1])) in cj for w in want)
-            found = [str(c) for c in cj]
+            # the filter as a boolean function: it may only pass signatures for which all three relations hold, and passes some
+            fn = BoolFn(cond)
+            ok, found, passes = True, None, False
+            for a in fn.assignments():
+                if fn.value(a):
+                    passes = True
+                    if not (a.get(want[0]) is True and a.get(want[1]) is True and a.get(want[2]) is False):
+                        ok, found = False, 'passes a signature under [%s]' % keyaction._show(a)
+            if not passes:
+                ok, found = False, 'the filter %s never passes' % cond
         else:
             # a plain loop with an inner test: decisions inside a summarised loop are not kept, so run the body for one
             # element and read the truth table: the element is yielded iff all three relations hold
